@@ -242,6 +242,20 @@ def worker(idx, nworkers, tier, seed, extra):
                     _raw_client(w, {"user": user, "pw": pw, "cuser": user, "cpw": pw, "salt": c03.rb(rnd, 32).hex(), "g": g,
                                     "n": M.to_le(n_).hex(), "b": c03.rb(rnd, 32).hex(), "a": a.hex(), "Bmode": "honest"})
                     mon.count("composite_modulus_calls")
+        # ---- tiny composite moduli, every server key from 1 to a little above twice the modulus, odd and even private keys:
+        #      negative bases that share factors with the modulus (powers that vanish modulo N), bases of -1, 0, -N ...
+        w.kind = "tiny_moduli_all_server_keys"
+        tiny_n = [4, 8, 9, 16, 25, 27, 49, 6, 12, 36]
+        for ti, n_ in enumerate(tiny_n):
+            if ti % nworkers != idx % nworkers and (ti + 5) % nworkers != idx:
+                continue
+            user, pw, salt_ = c01.rand_cred(rnd), c01.rand_cred(rnd), c03.rb(rnd, 32)
+            for g in (1, 2, 3, 5, 7):
+                for Bv in range(1, 2 * n_ + 2):
+                    for a in (M.to_le(1), M.to_le(2), M.to_le(rnd.getrandbits(255) | 1), M.to_le(rnd.getrandbits(255) << 1)):
+                        _raw_client(w, {"user": user, "pw": pw, "cuser": user, "cpw": pw, "salt": salt_.hex(), "g": g, "n": M.to_le(n_).hex(),
+                                        "b": M.to_le(1).hex(), "a": a.hex(), "Bmode": "honest", "B": Bv})
+                        mon.count("tiny_modulus_calls")
         # ---- the same account (same x) and generator under different announced moduli, one after the other
         w.kind = "same_account_other_modulus"
         for rep_ in range(2 * scale):
@@ -271,6 +285,22 @@ def worker(idx, nworkers, tier, seed, extra):
         for i in range(1 * scale):
             c14.server_hostile(w, rnd, sink, False)
             c14.client_hostile(w, rnd, sink, False)
+        # ---- several threads in one process (not lock-step: thread schedules differ): each back end runs honest logins on 16
+        #      threads at once, odd threads additionally run client sessions under other announced groups; every transcript is
+        #      judged by the model, so the two back ends agree with each other through it
+        if idx in (1, 2) and tier != "miri":
+            from sessions import parse_transcripts, judge_transcript
+            for name, x in (("num", w.a), ("rug", w.b)):
+                ev = x.call("mt_logins", n=(1600 if tier == "quick" else 8000), threads=16, tag=seed * 10 + idx)
+                rp = {"engine": "wsx", "kind": "raw", "commands": [ev.cmd]}
+                mon.ev()
+                if ev.status != "ok":
+                    mon.violation("c19:mt:%s:%s" % (name, ev.f.get("stage", ev.status)), "multi-threaded logins failed on the %s back end: %s" % (name, str(ev.f)[:300]), rp)
+                    continue
+                for k, (t, d) in enumerate(parse_transcripts(ev, 16)):
+                    judge_transcript(d, mon, "c19:" + name, with_model=(k % 4 == 0), replay=rp)
+                    mon.count("multi_threaded_logins:" + name)
+                mon.cell(("mt", name, idx))
     except ExecutorDied:
         pass
     finally:
@@ -350,6 +380,8 @@ def _raw_client(w, sc):
         Bi += n
     if Bi in (0, M.N):
         Bi += n
+    if sc.get("B") is not None:
+        Bi = sc["B"]
     w.reset()
     w.script([sc["a"]])
     r = w.call("cli_new", into=4, u=sc["cuser"], p=sc["cpw"], g=g, N=bytes.fromhex(sc["n"]), B=M.to_le(Bi), salt=salt)
